@@ -4,7 +4,8 @@
 seeded/<id>/meta.json under detection.last_run.  /repo itself is never modified."""
 import json, os, subprocess, sys, glob, re, threading, queue, time
 N = int(sys.argv[1]) if len(sys.argv) > 1 else 3
-seeds = sorted(glob.glob("/verif/seeded/*/meta.json"))
+only = set(sys.argv[2:])
+seeds = [s for s in sorted(glob.glob("/verif/seeded/*/meta.json")) if not only or os.path.basename(os.path.dirname(s)) in only]
 q = queue.Queue()
 for s in seeds:
     q.put(s)
@@ -32,6 +33,8 @@ def worker(k):
         sigs = re.findall(r"^   (C\d\d/\S+?):", out, flags=re.M)
         rcs = re.findall(r"^SEEDTEST: (C\d\d) rc=(\d+) violations=(\d+)", out, flags=re.M)
         detected = any(rc == "1" and int(v) > 0 for _, rc, v in rcs)
+        if not detected:
+            print(f"--- {m['id']} output tail:\n" + "\n".join(out.splitlines()[-8:]), flush=True)
         m["detection"]["last_run"] = {"repo_commit": base, "detected": detected, "per_check": [{"check": c, "rc": int(rc), "new_signatures": int(v)} for c, rc, v in rcs], "signatures_shown": sigs[:8], "wall_s": round(time.time() - t0, 1)}
         with lock:
             json.dump(m, open(mp, "w"), indent=1)
